@@ -25,7 +25,8 @@ def NoCi (sch : Schema) : Prop := ∀ c ∈ sch.cols, c.ci = false
 def KeyInjOn (pk : List Nat) (S : List Row) : Prop :=
   ∀ r1 ∈ S, ∀ r2 ∈ S, getRowKey pk r1 = getRowKey pk r2 → proj pk r1 = proj pk r2
 
-theorem getRowKey_eq (pk : List Nat) (r : Row) : getRowKey pk r = (proj pk r).flatMap printVal := by
+theorem getRowKey_eq (pk : List Nat) (r : Row) :
+    getRowKey pk r = (proj pk r).flatMap (fun v => keyPart (printVal v)) := by
   simp [getRowKey, proj, List.flatMap_map]
 
 theorem key_of_proj {pk : List Nat} {r1 r2 : Row} (h : proj pk r1 = proj pk r2) :
@@ -746,5 +747,83 @@ theorem printInt_inj (a b : Int) (h : printInt a = printInt b) : a = b := by
   · simp only [ha, hb, if_false] at h
     have := natDec_inj _ _ h
     omega
+
+/-! ### the repaired `getRowKey` (length-prefixed parts) is injective on typed keys -/
+
+theorem natDec_digits (n : Nat) : ∀ d ∈ natDec n, 48 ≤ d ∧ d ≤ 57 := natDecF_digits (n + 1) n
+
+/-- a `:`-free prefix before the first `:` is determined by the whole string. -/
+theorem colon_split_inj (a b x y : List Nat) (ha : ∀ d ∈ a, d ≠ 58) (hb : ∀ d ∈ b, d ≠ 58)
+    (h : a ++ 58 :: x = b ++ 58 :: y) : a = b ∧ x = y := by
+  induction a generalizing b with
+  | nil =>
+    cases b with
+    | nil => simpa using h
+    | cons b0 bs =>
+      simp only [List.nil_append, List.cons_append, List.cons.injEq] at h
+      exact absurd h.1.symm (hb b0 (by simp))
+  | cons a0 as ih =>
+    cases b with
+    | nil =>
+      simp only [List.nil_append, List.cons_append, List.cons.injEq] at h
+      exact absurd h.1 (ha a0 (by simp))
+    | cons b0 bs =>
+      simp only [List.cons_append, List.cons.injEq] at h
+      obtain ⟨h0, h1⟩ := h
+      obtain ⟨e1, e2⟩ := ih bs (fun d hd => ha d (by simp [hd])) (fun d hd => hb d (by simp [hd])) h1
+      exact ⟨by rw [h0, e1], e2⟩
+
+/-- **Key parts are self-delimiting**: a concatenation that starts with a key part determines the
+part and the rest (`%d:%s,` with the byte length of `%s`). -/
+theorem keyPart_inj (s1 s2 t1 t2 : Key) (h : keyPart s1 ++ t1 = keyPart s2 ++ t2) : s1 = s2 ∧ t1 = t2 := by
+  unfold keyPart at h
+  simp only [List.append_assoc, List.cons_append] at h
+  obtain ⟨hl, hr⟩ := colon_split_inj _ _ _ _
+    (fun d hd => by have := natDec_digits _ d hd; omega)
+    (fun d hd => by have := natDec_digits _ d hd; omega) h
+  have hlen : s1.length = s2.length := natDec_inj _ _ hl
+  obtain ⟨e1, e2⟩ := List.append_inj hr hlen
+  simp only [List.nil_append, List.cons.injEq, true_and] at e2
+  exact ⟨e1, e2⟩
+
+/-- kind of a value: what the column type fixes (NULL / integer / string). -/
+def Val.kind : Val → Nat
+  | .null => 0
+  | .int _ => 1
+  | .str _ => 2
+
+/-- `%v` printing is injective on values of one kind. (Across kinds it is not: `1` and `'1'`.) -/
+theorem printVal_inj_kind (a b : Val) (hk : a.kind = b.kind) (h : printVal a = printVal b) : a = b := by
+  cases a <;> cases b <;> simp only [Val.kind] at hk <;> try omega
+  · rfl
+  · simp only [printVal] at h; rw [printInt_inj _ _ h]
+  · simp only [printVal] at h; rw [h]
+
+/-- The repaired `getRowKey` separates the key values of any two rows whose key columns hold values
+of the same kinds. -/
+theorem getRowKey_inj (pk : List Nat) (r1 r2 : Row) (hk : ∀ c ∈ pk, (r1.at c).kind = (r2.at c).kind)
+    (h : getRowKey pk r1 = getRowKey pk r2) : proj pk r1 = proj pk r2 := by
+  induction pk with
+  | nil => rfl
+  | cons c cs ih =>
+    simp only [getRowKey, List.flatMap_cons] at h
+    obtain ⟨h1, h2⟩ := keyPart_inj _ _ _ _ h
+    have hv := printVal_inj_kind _ _ (hk c (by simp)) h1
+    simp only [proj, List.map_cons]
+    rw [hv]
+    congr 1
+    exact ih (fun c hc => hk c (by simp [hc])) h2
+
+/-- The key columns of `r` hold values of the declared kinds: a string in a VARCHAR column, an
+integer in an INT column, never NULL (primary-key columns are NOT NULL; the engine rejects anything
+else before the table editor is reached — `checkRow`, ERROR 1048). -/
+def KeyTyped (sch : Schema) (r : Row) : Prop :=
+  ∀ c ∈ sch.pk, (r.at c).kind = if (sch.cols.getD c {}).str then 2 else 1
+
+/-- **`getRowKey` is injective on the key values of typed rows** — the statement that was false
+before the repair of `pk_print_collision` (then: (1,23) / (12,3)). -/
+theorem keyInjOn_typed (sch : Schema) (S : List Row) (h : ∀ r ∈ S, KeyTyped sch r) : KeyInjOn sch.pk S := by
+  intro r1 h1 r2 h2 hk
+  exact getRowKey_inj sch.pk r1 r2 (fun c hc => by rw [h r1 h1 c hc, h r2 h2 c hc]) hk
 
 end Gms.MemTable
